@@ -82,6 +82,11 @@ fn main() {
         "C18" => vh::props::c18::run(&mut rep, thorough),
         "C08" => vh::props::c08::run(&mut rep, thorough),
         "C03" => vh::props::c03::run(&mut rep, thorough),
+        "C02" => vh::props::c02::run(&mut rep, thorough, a.rest.iter().any(|x| x == "--release-workers")),
+        "worker" => {
+            vh::props::c02::worker_main(&a.rest[0], &a.rest[1]);
+            return;
+        }
         "smoke" => {
             smoke();
             return;
